@@ -85,7 +85,7 @@ def gen_structured(ctx, n):
         layers = M.gen_layers(r, len(mesh["sizes"]), nd, how, exact=exact_wanted)
         if r.random() < 0.07:
             # NaN cell values in one scalar layer (the mask is taken from the LAST binned layer)
-            sc = [l for l in layers if l["kind"] == "scalar"]
+            sc = [l for l in layers if l["kind"] == "scalar" and l.get("dtype", "f8") in ("f8", "f4")]  # integers cannot hold NaN
             if sc:
                 lay = r.choice(sc)
                 for k in r.sample(range(len(lay["vals"])), max(1, len(lay["vals"]) // 5)):
@@ -430,7 +430,10 @@ def thread_lane(ctx, out, recs, dist):
                                 break
                         if bad:
                             break
-                    if not bad and "modelAmbig" not in ans:       # (thick map without dx: the Spec samples other depths than the code)
+                    nan_last = c["layers"][-1]["kind"] == "scalar" and any(v is None for v in c["layers"][-1]["vals"])
+                    # NaN cell values in the last layer mask the pixel (outside the claim, as in the one-thread lane): on a face the
+                    # NaN-valued cell may be the one that is painted last
+                    if not bad and "modelAmbig" not in ans and not nan_last:       # (thick map without dx: the Spec samples other depths than the code)
                         v, _ = M.compare_spec(c, rec["obs"], impl, ans, rec["lane"])
                         v0 = rec.get("violations") or []
                         if len(v) > len(v0):
